@@ -240,6 +240,9 @@ func (gm *gameMon) push(t *track, m ref.Move) bool {
 					if m.Kind == ref.KCastleK || m.Kind == ref.KCastleQ {
 						c.Count("ev_clock100_by_castling", 1)
 					}
+					if t.g.Start.Half >= 100 {
+						c.Count("ev_clock_beyond_100_at_setup", 1)
+					}
 					if t.g.Start.Half > 0 {
 						c.Count("ev_clock100_first_from_fen_clock", 1)
 					}
